@@ -409,6 +409,60 @@ def gen_hist_filter(rng, regex):
     return ",".join(t for t, _ in items), [st for _, st in items]
 
 
+def same_type_miss(rng, vs, good):
+    """a value of the same Rust type as `good` (so it reaches the same Visit method and the same matcher arm) that does not match"""
+    k, v = vs
+    if "b" in good:
+        return {"b": not good["b"]}
+    if "u" in good:
+        return {"u": (good["u"] + 1) % (2 ** 64) if good["u"] != 2 ** 64 - 1 else 3}
+    if "i" in good:
+        return {"i": good["i"] + 1 if good["i"] < 2 ** 62 else good["i"] - 1}
+    if "f" in good:
+        return {"f": good["f"] + 1.0}
+    if "s" in good:
+        return {"s": h("zz" + unh(good["s"])[:1] + "q")}
+    return {"d": h("Zz(" + unh(good["d"])[:1])}
+
+
+def gen_overwrite_history(rng, pools, regex):
+    """Targeted at the per-field `matched` flags: on ONE span a matching value is recorded and later overwritten by a
+    non-matching value of the same type (or the other way round), with or without an enter/exit in between; then the span is
+    entered and events at the directive's level are probed.  -> (string, struct, ops)"""
+    vt, vs, good, _bad = rng.choice(HIST_VALUES[regex])
+    g = rng.choice(good)
+    miss = same_type_miss(rng, vs, g)
+    field = rng.choice(["x", "x", "y"])
+    l = rng.choice([3, 4, 4, 5])
+    tg = rng.choice([None, None, "app", "ap"])
+    sp = rng.choice(["sp", "sp", "sq", None])
+    txt = (tg or "") + "[" + (sp or "") + "{" + field + "=" + vt + "}]=" + rng.choice([LVN[l], LVN[l].upper(), str(l)])
+    struct = [{"target": tg, "span": sp, "fields": [(field, vs)], "level": l}]
+    if rng.random() < 0.5:
+        st = rng.choice([1, 2])
+        txt = rng.choice([txt + "," + LVN[st], LVN[st] + "," + txt])
+        struct.append({"target": None, "span": None, "fields": [], "level": st})
+    fit = [p for p in pools["spans"] if p[1].startswith(tg or "") and (sp is None or p[3] == sp) and LEVEL_BY_NAME[p[2]] <= 3]
+    cs = rng.choice(fit or [p for p in pools["spans"] if p[1].startswith(tg or "") and (sp is None or p[3] == sp)])[0]
+    probes = [e[0] for e in pools["events"] if LEVEL_BY_NAME[e[2]] == l] or [3]
+    ev = lambda t=0: ["event", t, rng.choice(probes)]
+    first, second = (g, miss) if rng.random() < 0.75 else (miss, g)
+    at_creation = rng.random() < 0.5
+    ops = [["span", 0, cs, 1, [[field, first]] if at_creation else []]]
+    if not at_creation:
+        ops.append(["record", 0, 1, [[field, first]]])
+    if rng.random() < 0.5:                       # an enter / exit between the two records
+        ops += [["enter", 0, 1], ev(), ["exit", 0, 1]]
+    ops.append(["record", 0, 1, [[field, second]]])
+    if rng.random() < 0.3:                       # a third record, of yet another type
+        ops.append(["record", 0, 1, [[field, rng.choice([{"b": True}, {"u": 77}, {"s": h("other")}])]]])
+    ops += [["enter", 0, 1], ev(), ev(1), ["exit", 0, 1], ev()]
+    if rng.random() < 0.5:
+        ops += [["enter", 0, 1], ev(), ["exit", 0, 1]]
+    ops += [["drop", 0, 1], ev()]
+    return txt, struct, ops
+
+
 def gen_history(rng, pools, struct, regex, wellnested=True, nthreads=2):
     """-> ops list (harness format).  Well-nested: per thread LIFO enter/exit, every enter exited, span handles dropped only
     when the span is not entered; values recorded at creation or later (also while entered)."""
@@ -781,6 +835,11 @@ def run(ctx):
             wn = rng.random() < 0.8
             ops = gen_history(rng, pools, st, regex, wellnested=wn, nthreads=rng.choice([1, 2, 2, 3]))
             add({"k": "hist", "s": s, "struct": st, "regex": regex, "cfg": ["probe", "plain", "filter"][i % 3], "ops": ops, "wellnested": wn})
+        for i in range(60 * scale):
+            regex = rng.random() < 0.4
+            s, st, ops = gen_overwrite_history(rng, pools, regex)
+            add({"k": "hist", "s": s, "struct": st, "regex": regex, "cfg": ["probe", "plain", "filter"][i % 3], "ops": ops, "wellnested": True,
+                 "overwrite": True})
     ctx.log("generated %d cases" % len(cases))
 
     # ---- implementation run(s)
@@ -911,7 +970,7 @@ def run(ctx):
             if prof == "static-info":
                 rep.count("case:static-cap-build:" + k)
             else:
-                rep.count("case:" + k + (":malformed" if c.get("malformed") else ""))
+                rep.count("case:" + k + (":malformed" if c.get("malformed") else "") + (":overwrite" if c.get("overwrite") else ""))
             if k in ("targets", "tapi"):
                 check_targets(rep, c, r, pool_metas, pool_targets, prof, fixed_f21)
                 if model is not None:
